@@ -204,6 +204,32 @@ def oracle(case, line):
     return bad
 
 
+MAGNET_TAGS = {
+    1: "prefix_bad", 2: "loop_error", 3: "no_hash", 4: "ok_no_trackers", 5: "ok_trackers",
+    10: "round_end", 11: "tag_without_eq", 12: "xt_no_urn", 13: "xt_b32_ok", 14: "xt_b32_fail", 15: "xt_raw20",
+    16: "xt_hex40_ok", 17: "xt_hex40_bad", 18: "xt_bad_len", 19: "tr", 20: "other_tag", 21: "url_error", 22: "second_hash",
+    30: "url_end", 31: "pct_truncated", 32: "pct_bad_hex", 33: "pct_ok", 34: "url_amp", 35: "url_plain", 36: "url_fault(unreachable)",
+    40: "b32_end_ok", 41: "b32_end_fail", 42: "b32_emit", 43: "b32_no_emit", 44: "b32_too_many", 45: "b32_amp_ok",
+    46: "b32_amp_fail", 47: "b32_bad_char",
+    50: "decoded_NUL", 51: "decoded_slash", 52: "decoded_amp", 53: "decoded_pct", 54: "decoded_eq", 55: "decoded_high_byte",
+}
+
+
+def magnet_coverage(model, cases):
+    """branch coverage of the MODEL's magnet parser over the U cases: tag -> number of cases"""
+    ucases = [c for c in cases if c.startswith("U ")]
+    out = ltv.run_sharded(model, ucases, args=["--cov"])
+    cnt = collections.Counter()
+    for line in out:
+        for t in line.split():
+            if t.isdigit():
+                cnt[int(t)] += 1
+    cov = {MAGNET_TAGS.get(t, str(t)): n for t, n in sorted(cnt.items())}
+    missing = [name for t, name in MAGNET_TAGS.items() if t not in cnt and t != 36]
+    return dict(branches=cov, reachable_branches=len(MAGNET_TAGS) - 1, covered=len([t for t in cnt if t != 36]),
+                never_reached=missing, unreachable_reached=cnt.get(36, 0), uri_cases=len(ucases))
+
+
 def run(rep, tier, seed, replay):
     coq = ltv.coq_build("C08")
     rep.cov.update(obligations=coq["obligations"], discharged=coq["discharged"], checker_cmd=coq["checker_cmd"],
@@ -223,6 +249,10 @@ def run(rep, tier, seed, replay):
         cases, stats = G.gen(seed, tier)
     mo = ltv.run_sharded(model, cases)
     io = ltv.run_sharded(impl, cases)
+    mcov = magnet_coverage(model, cases) if not replay else {}
+    if mcov.get("never_reached") or mcov.get("unreachable_reached"):
+        ltv.log("C08 COVERAGE-GAP (model magnet parser): never reached %s; unreachable reached %s" % (
+            mcov.get("never_reached"), mcov.get("unreachable_reached")))
     accepted = set()
     outcome = collections.Counter()
     mism = 0
@@ -286,6 +316,7 @@ def run(rep, tier, seed, replay):
                         "rejected cases are counted in outcome_histogram",
                    samples=samples, input_distribution=stats, outcome_histogram=dict(outcome), mismatches=mism,
                    oracle_classes_seen=dict(klass_seen), lifecycle=dict(lifecycle),
+                   model_magnet_branch_coverage=mcov,
                    exhaustive="all 'files' lists of 1..2 entries with 1..2 path components over {a,b,.,..,'',a/b,a\\0} (3192 cases)" if tier != "quick" else "quarter sample of that scope")
     rep.assumptions += ["integers in the torrent object are int64 (what the bencode decoder yields)",
                         "file-system limits (NAME_MAX, PATH_MAX, inode quota) are not hit: generated components are short",
